@@ -66,6 +66,7 @@ def main():
     ap = argparse.ArgumentParser()
     ap.add_argument("--suite", action="store_true")
     ap.add_argument("--only", default=None)
+    ap.add_argument("--exact", action="store_true", help="--only names exactly one change")
     ap.add_argument("--tier", default="quick")
     ap.add_argument("--fallback", action="store_true", help="when the owning check misses, try the others one by one")
     ap.add_argument("--out", default=os.path.join(HERE, "selftest_results.json"))
@@ -74,6 +75,8 @@ def main():
     if os.path.exists(a.out):
         results = json.load(open(a.out))
     for it in items():
+        if a.only and a.exact and a.only != it["name"]:
+            continue
         if a.only and a.only not in it["name"] and a.only not in it["props"]:
             continue
         d = tempfile.mkdtemp(prefix="xvself")
